@@ -56,11 +56,11 @@ def constructor_faults():
 def run(tier, seed):
     alpha = ['kill', 'pause', 'play', 'resume', 'cbraise']
     kw = dict(base='ProcessFaults', spec='FSpec')
-    scen = ['P02', 'P03', 'P04', 'P12', 'P07', 'P08', 'P14']
+    scen = ['P02', 'P03', 'P04', 'P12', 'P07', 'P08', 'P09', 'P14']
     if tier == 'quick':
         mc = [dict(name='C03_faults', progs=C.fam(scen), plans=fault_plans((1, 2, 3)), alphabet=alpha, k=1, invariants=INV, **kw),
               dict(name='C03_faults2', progs=C.fam(['P03', 'P04', 'P12']), plans=fault_plans((1, 2)), alphabet=['pause', 'play', 'kill'], k=2, invariants=INV, **kw)]
-        rp = [dict(name='C03_faults', progs=C.fam(['P03', 'P04', 'P12']), plans=fault_plans((1, 2)), alphabet=alpha, k=1, **kw)]
+        rp = [dict(name='C03_faults', progs=C.fam(['P03', 'P04', 'P09', 'P12']), plans=fault_plans((1, 2)), alphabet=alpha, k=1, **kw)]
         ctor = dict(name='C03_ctor', progs=C.fam(['P03', 'P12']), plans=ctor_plans(), alphabet=['kill', 'rpc'], k=1, overrides=OV, **kw)
     else:
         mc = [dict(name='C03_faults', progs=C.fam(C.ALL), plans=fault_plans((1, 2, 3)), alphabet=alpha, k=2, invariants=INV, **kw),
